@@ -55,7 +55,7 @@ PROPS = {
     },
     'C08': {
         'tests': [life('TestC08', 500, 8000)],
-        'rule': "1-3 processes (fast exit, exit held until released, restarting policy, pending on a dependency), histories of up to 16 steps mixing start/stop/restart/stop-many on known and unknown names with scripted exits; non-trivial = a request on a process that was Running and a later request on the same process; distinct = distinct scenario JSON",
+        'rule': "1-3 processes (fast exit, exit held until released, restarting policy, pending on a dependency), histories of up to 16 steps mixing start/stop/restart/stop-many on known and unknown names with scripted exits; non-trivial = a request on a process that was Running and a later request on the same process; distinct = distinct scenario JSON Restart requests on instances that still wait for their dependencies are admitted and followed (60%) by the end of a dependency or a further request on the same process.",
         'assumptions': LIFE_ASSUME,
     },
     'C09': {
@@ -105,12 +105,12 @@ PROPS = {
     },
     'C13': {
         'tests': [tst('lifecycle', 'TestC13', 60, 1200)],
-        'rule': "project: templated process web (command, description and exec readiness probe use PC_REPLICA_NUM; initial replicas 1-3), process db (replicas 1-2), a plain process and a dependent; 1-6 scale requests addressed by a current replica name, the bare name, an unknown or a stale name, n from {-1,0,1,2,3,4,9,10,11} and, in 15% of the cases, {9,10,11,99,100,101}. Oracle: differential against a fresh loader.Load with replicas: n (names, per-replica config, probe), ground truth per replica (survivors undisturbed, removed terminated, added launched once with their own number), failing requests change nothing. Non-trivial = a name-width change or a scale-down; distinct = distinct case JSON",
+        'rule': "project: templated process web (command, description and exec readiness probe use PC_REPLICA_NUM; initial replicas 1-3), process db (replicas 1-2), a plain process and a dependent; 1-6 scale requests addressed by a current replica name, the bare name, an unknown or a stale name, n from {-1,0,1,2,3,4,9,10,11} and, in 15% of the cases, {9,10,11,99,100,101}. Oracle: differential against a fresh loader.Load with replicas: n (names, per-replica config, probe), ground truth per replica (survivors undisturbed, removed terminated, added launched once with their own number), failing requests change nothing. Non-trivial = a name-width change or a scale-down; distinct = distinct case JSON After every request each live replica prints a line that must be in its own log only.",
         'assumptions': LIFE_ASSUME[:2] + ["a request addressed by the bare name of an already replicated process may fail or succeed (the statement does not say which names are known); if it fails it must change nothing"],
     },
     'C14': {
         'tests': [tst('lifecycle', 'TestC14', 200, 4000)],
-        'rule': "P = 2-6 processes over command / entrypoint (executable + arguments), environment, working dir, restart policy, readiness probe, dependencies; 1-3 successive updates P' obtained by keeping, removing or mutating each process (1-2 mutations out of: command, executable, argument, environment change/add/remove, working dir, probe, policy, back-off, dependency, description, namespace, shutdown signal) and adding new processes; in 35% of the cases the last configuration is applied twice (idempotence). Oracle: reference classification by the statement's launch-relevant field list, status map, configured set, instance identity (kept / terminated / launched with the new executable, arguments, environment and directory). Non-trivial = some process changed while another one stayed unchanged and alive; distinct = distinct case JSON",
+        'rule': "P = 2-6 processes over command / entrypoint (executable + arguments), environment, working dir, restart policy, readiness probe, dependencies; 1-3 successive updates P' obtained by keeping, removing or mutating each process (1-2 mutations out of: command, executable, argument, environment change/add/remove, working dir, probe, policy, back-off, dependency, description, namespace, shutdown signal) and adding new processes; in 35% of the cases the last configuration is applied twice (idempotence). Oracle: reference classification by the statement's launch-relevant field list, status map, configured set, instance identity (kept / terminated / launched with the new executable, arguments, environment and directory). Non-trivial = some process changed while another one stayed unchanged and alive; distinct = distinct case JSON A project-level variable GV is used by a quarter of the commands and changed by 30% of the updates.",
         'assumptions': LIFE_ASSUME[:2] + ["changes confined to description, namespace or shutdown signal may or may not be reported as an update (the statement does not list them as launch-relevant)"],
     },
     'C10': {
